@@ -134,6 +134,13 @@ static void run() {
     setup();
     Args& a = W().args;
     { Case c; c.set("kind", "coldstart"); c.set("salt", a.seed * 100 + (uint64_t)a.worker); set_current(c); std::string m = oracle(c); if (!m.empty() && enum_fail(c, m)) return; }
+    // 0. exhaustive: every birthday month x every holdable feature combination, through the load path (round trip in a rotating language)
+    { uint64_t idx = 0, done = 0; for (unsigned bd = 0; bd < 1024; bd++) for (unsigned fi = 0; fi < 16; fi++) {
+        if ((int)(idx++ % (uint64_t)a.nworkers) != a.worker) continue;
+        SplitMix sm(mix64(a.seed * 104729 + bd * 16 + fi)); std::vector<uint8_t> sec(19); for (auto& b : sec) b = (uint8_t)sm.next();
+        Case c = make_case(sec, (int)bd, 7, fi & 7u, (fi >> 3) & 1u, (int)(sm.next() % 2048), REG->at((bd * 3 + fi) % REG->size()).name_en, "load", (int)(sm.next() % 2048), 32, 0, 0); c.set("gen", "birthday-x-features");
+        set_current(c); std::string m = oracle(c); done++; if (!m.empty() && enum_fail(c, m)) return; }
+      W().ev.enumerated["every birthday month (1024) x every holdable feature combination (16), load path"] += done; }
     // 1. uniform generator
     rc_run("c01-uniform", a.n(16000, 320000), 100, [&]() {
         auto sec = *g::secret19(); int bd = *g::birthday(); unsigned mask = *in_range<unsigned>(0, 8), uf = *in_range<unsigned>(0, 8), enc = *in_range<unsigned>(0, 2);
